@@ -123,15 +123,18 @@ fn char_bounds(s: &str) -> Vec<usize> {
     v
 }
 
-/// runs of a repeated unit (1..=8 chars, at least 4 repetitions): (start, unit, reps) in chars
+/// runs of a repeated unit (1..=160 chars, at least 4 repetitions): (start, unit, reps) in chars
 fn find_runs(chars: &[char]) -> Vec<(usize, usize, usize)> {
     let mut runs = Vec::new();
     let mut i = 0;
     while i < chars.len() {
         let mut found = None;
-        for unit in 1..=8usize {
+        for unit in 1..=160usize {
             if i + unit * 4 > chars.len() {
                 break;
+            }
+            if chars[i] != chars[i + unit] {
+                continue; // cheap rejection before comparing whole units
             }
             let mut reps = 1;
             while i + (reps + 1) * unit <= chars.len() && chars[i..i + unit] == chars[i + reps * unit..i + (reps + 1) * unit] {
